@@ -394,6 +394,10 @@ void World::end_call(Outcome& o)
         stop = true;
         stop_reason = "sql watchdog fired";
     }
+    if (g_taps.max_alloc > (1ull << 28) && plan.cfg.profile.compare(0, 7, "corrupt") == 0)
+        report("C05", "C05|" + fam() + "|absurd-allocation",
+               "a single call asked the heap for " + std::to_string(g_taps.max_alloc) +
+                   " bytes while reading a stored blob of a few kilobytes (an embedded length was trusted)");
     if (g_taps.inflate_nonterm)
         report("C05", "C05|" + fam() + "|inflate-no-progress",
                "inflate loop made no progress (non-termination)");
